@@ -110,6 +110,90 @@ CLAIMS = {
              "converter in dev and release and requires a refusal; the ledger must show each input dropped exactly once.",
         note=BASE_NOTE,
         ref="DESIGN.md section 4 C10"),
+    "C04": dict(
+        engine="E2 gendump + E3 execgen",
+        technique="Coq proofs on an abstract machine for the generated function bodies + generator differential + execution of real generated code (dev+hooks, release)",
+        text="Theorems C04_new, C04_get, C04_unpack, C04_set_frame, C04_new_uninit (coq/Props/C04.v): on the abstract machine Exec running the "
+             "bodies Gen emits, for every definition/variant with layout_ok, every capacity and every valuation: new never faults and yields a record "
+             "that holds exactly the values put in; every accessor of ANY record that holds the variant returns the field's value; unpack returns all "
+             "values and destroys nothing; a write through one mutable accessor changes that field and no other. C04_current ties the pointer/store "
+             "facts of data.rs (translator). E2 compares every item of the real generated text with Gen; E3 executes real generated modules over 12 "
+             "instrumented field types on the stack, in a Box, in a Vec, with larger capacities, by-value rebinding, in dev (with runtime hooks) and release.",
+        note=BASE_NOTE + "PARTIAL: Exec is a model of a fragment of Rust (trusted, validated by E3); two zero-size fields of one type at one offset are outside the theorems (E3 covers them); what LLVM does is observed, not proved.",
+        ref="DESIGN.md section 4 C04"),
+    "C05": dict(
+        engine="E2 gendump + E3 execgen",
+        technique="Coq proof (conversion maps records that hold P to records that hold Q) + generator differential + execution of every form and chain",
+        text="Theorem C05 (conv_holds): for two consecutive variants with layout_ok and any record holding the previous one, each of the four generated "
+             "conversion forms never faults, keeps every carried field with its value, stores every supplied added field with the supplied value (an added "
+             "field may reuse a removed field's bytes: removed fields are read first), and hands back (and_out) or destroys once (otherwise) every removed "
+             "field with the value it had. C05_minus_plus: the lists Gen computes by merging the id-sorted variants have the required shape. Chains are the "
+             "composition (the result holds the next variant). E2 ties statement order; E3 executes the 4 forms and 4 chain patterns per definition.",
+        note=BASE_NOTE + "PARTIAL as C04.",
+        ref="DESIGN.md section 4 C05"),
+    "C06": dict(
+        engine="E2 gendump + E3 execgen",
+        technique="Coq proofs (per-operation accounting of every value on the abstract machine) + ledger of live instances in real executions",
+        text="Theorems C06_drop (the generated Drop destroys a permutation of the droppable values the record holds: each exactly once), "
+             "C06_conversion_drops, with C04_new / C04_unpack / C04_set_frame / C05 stating for every other operation which values are moved in, handed "
+             "back or destroyed. E3 runs every scenario under a ledger of live instances (double destruction and leaks are reported per operation "
+             "sequence), plus the per-byte ownership shadow of the runtime hooks.",
+        note=BASE_NOTE + "PARTIAL as C04; the ledger theorem over arbitrary operation sequences is the composition of the per-operation theorems (not yet stated as one induction).",
+        ref="DESIGN.md section 4 C06"),
+    "C07": dict(
+        engine="E2 gendump + E3 execgen (+ runtime hooks)",
+        technique="Coq proofs that no generated operation reaches a Fault of the abstract machine + hooks (bounds, alignment, ownership shadow) + address checks in real executions",
+        text="Theorem C07_no_fault (with C05): every access the generated operations make is in bounds, aligned for its type given the alignment class "
+             "of the buffer (A for record structs, 1 for local buffers), touches a droppable value only where one of that type is owned, never stores onto "
+             "an owned droppable value, stores through a unique pointer by non-alignment-requiring means. C07_current ties those runtime facts to data.rs; "
+             "C07_refuted_unfixed keeps the pre-fix faults. E3 checks the address of every record and every field reference at stack/Box/Vec placements and "
+             "runs with the cfg(truc_verif) hooks (bounds, address alignment, per-byte ownership shadow) in dev.",
+        note=BASE_NOTE + "PARTIAL: base-address alignment is rustc's/the allocator's (observed).",
+        ref="DESIGN.md section 4 C07"),
+    "C11": dict(
+        engine="E2 gendump + E5 probe",
+        technique="Coq proof that the emitted assertions force the recorded type information + compile probes (rustc accepts / rejects)",
+        text="Theorem C11 (gate_sound): for every definition and fragment selection, if the generated module passes its own compile-time gate in a world "
+             "(every const_assert_eq! on size and alignment holds, every Copy instantiation is met) then every datum of every variant - introduced first or "
+             "later, still present or removed - has its real size and alignment recorded, and may-be-uninit data have Copy types. C11_refuted_unfixed keeps "
+             "the witness of the missing alignment assertions. E5 compiles ~200 probes (10 types x perturbations x positions, paired with unperturbed ones).",
+        note=BASE_NOTE + "PARTIAL: that rustc rejects a failed const assertion / Copy bound is rustc's (E5).",
+        ref="DESIGN.md section 4 C11"),
+    "C14": dict(
+        engine="E5 probe + E2 gendump",
+        technique="Coq refutation on the faithful model (auto-trait rule) + Send/Sync compile probes; open known findings",
+        text="C14_refuted: on the faithful model a variant with a non-Send field is still Send (the record struct only contains bytes); C14_all_send: the "
+             "converse half holds. The 10 probes that show the finding (Rc, Cell, raw pointer fields; first and later variant) are listed in "
+             "known_findings.txt and re-demonstrated on every run (KNOWN-FINDING lines); any other disagreement - e.g. a record with only Send+Sync fields "
+             "that is not Send or not Sync, or an `unsafe impl` in the generated text - is reported as a violation.",
+        note=BASE_NOTE + "The auto-trait rule is trusted; validated by E5.",
+        ref="DESIGN.md section 4 C14"),
+    "C15": dict(
+        engine="E2 gendump + E3 execgen",
+        technique="Coq proofs over an abstract format (round trip, wrong length, undecodable element) + generator differential + real JSON/bincode executions",
+        text="Theorems C15_roundtrip, C15_wrong_length, C15_bad_element over Model/Serde.v (the format's and the field types' enc/dec are Section variables "
+             "with dec (enc x) = x); C15_gen_order: serialize and deserialize list all fields in declaration order with their types. E2 ties order, types and "
+             "the tuple length literal; E3 does JSON and bincode round trips, every truncation, one element too many, an undecodable element at every "
+             "position and a failing element decoder, with the ledger checking that nothing decoded is leaked.",
+        note=BASE_NOTE + "PARTIAL: serde's data model framing is modelled.",
+        ref="DESIGN.md section 4 C15"),
+    "C16": dict(
+        engine="E2 gendump + E3 execgen",
+        technique="Coq proofs on the abstract machine (clone = constructor over per-field clones) + generator differential + executions incl. panicking clones",
+        text="Theorems C16_equal (the clone never faults, destroys nothing, every field has the payload of the source's), C16_independent (a write to one "
+             "leaves the other), C16_gen (every field, declaration order, copied iff may-be-uninit; clone_from agrees - checked by the E2 dumper). E3 runs "
+             "clone / mutate / drop-either / clone_from and a clone that panics at every tracked field, under the ledger.",
+        note=BASE_NOTE + "PARTIAL as C04; unwinding of a panicking clone is executed, not modelled.",
+        ref="DESIGN.md section 4 C16"),
+    "C19": dict(
+        category="other",
+        engine="E1 bdiff + E2 gendump",
+        technique="by construction in the model (functions) + cross-process differential + hash of generated text in two processes + ordered-collections scan",
+        text="C19_model_is_a_function is immediate; what decides the property is (1) E1/E2 comparing the implementation with the model function in "
+             "separately started processes, (2) E2 generating every module twice in one process and hashing it again in another process, (3) the translator "
+             "requiring ordered collections only in the strategy/generator sources (C19_current).",
+        note=BASE_NOTE,
+        ref="DESIGN.md section 4 C19"),
 }
 
 
@@ -142,13 +226,22 @@ def main():
                   "source_commits": commits, "add_only": True},
         "engines": [
             {"name": "E1 bdiff", "path": "harness/src/bin/bdiff.rs + coq/Model/{Layout,Builder,Observe}.v + coq/extract",
-             "serves_properties": ["C01", "C02", "C03", "C12", "C13", "C18", "C20"],
+             "serves_properties": ["C01", "C02", "C03", "C12", "C13", "C18", "C19", "C20"],
              "kind_free_text": "differential execution of the real builder against the Gallina model (vm_compute inside Coq and extracted OCaml), plus property oracles on the implementation output"},
             {"name": "E4 vecdrv", "path": "harness/src/bin/vecdrv.rs + coq/Model/{VecConv,VecScript}.v + vlib/e4.py",
              "serves_properties": ["C08", "C09", "C10"],
              "kind_free_text": "scripted converters on ledger-tracked element types, global-allocator watch, dev+release, against the Gallina model"},
+            {"name": "E2 gendump", "path": "harness/src/bin/gendump.rs + coq/Model/{Ir,Gen}.v + coq/extract + vlib/e2.py",
+             "serves_properties": ["C02", "C03", "C04", "C05", "C06", "C07", "C11", "C13", "C14", "C15", "C16", "C19"],
+             "kind_free_text": "syn-based dump of every item of the real generated text compared with the Gallina generator model; byte identity across processes"},
+            {"name": "E3 execgen", "path": "harness/src/bin/mkexec.rs + harness/src/vt.rs + vlib/e3.py",
+             "serves_properties": ["C02", "C03", "C04", "C05", "C06", "C07", "C13", "C15", "C16"],
+             "kind_free_text": "compiles and runs real generated modules with instrumented field types, ledger, address checks, runtime hooks (dev) and release"},
+            {"name": "E5 probe", "path": "harness/src/bin/mkprobe.rs + vlib/e5.py",
+             "serves_properties": ["C11", "C13", "C14"],
+             "kind_free_text": "one rustc target per probe: accept / reject of generated modules"},
             {"name": "T1/T2 srcscan", "path": "vlib/srcscan.py -> coq/Current/Runtime.v",
-             "serves_properties": ["C08", "C09", "C10"],
+             "serves_properties": ["C04", "C05", "C06", "C07", "C08", "C09", "C10", "C11", "C19"],
              "kind_free_text": "translator of token-level source facts into model parameters, regenerated on every run"},
         ],
         "checks": checks,
